@@ -20,7 +20,7 @@ LEVEL = 'model_checking'
 ENTRY = '@harness_topo'
 
 
-def make_build(n, rounds, first_round_registers=False):
+def make_build(n, rounds, first_round_registers=False, observe_last=None):
     def build(first):
         st = State()
         ds = [z3.BitVec('d%d' % i, 8) for i in range(n * rounds)]
@@ -39,8 +39,9 @@ def make_build(n, rounds, first_round_registers=False):
                 st.pc.append(ds[i] >> 1 != 0)
         if first is not None:
             st.pc.append(z3.Or(*[ds[0] == v for v in first]))
-        # in the restricted family the last round only observes what is offered
-        return st, [BUF, n, rounds | (0x100 if first_round_registers else 0)], {'decisions': ds, 'n': n, 'rounds': rounds}
+        # in the restricted family the last round only observes what is offered (unless the configuration says 'full')
+        obs = first_round_registers if observe_last is None else observe_last
+        return st, [BUF, n, rounds | (0x100 if obs else 0)], {'decisions': ds, 'n': n, 'rounds': rounds}
     return build
 
 
@@ -65,17 +66,20 @@ def run(chk, tier, seed):
     llcheck.selftest(chk, mod, so, ENTRY, concrete, lambda c: native_args(*c), cases, ret='c_uint32', ret_bits=32)
     import os
     # (items, rounds, restricted to histories whose first round only registers dependencies)
-    configs = [(2, 3, False), (3, 2, False), (3, 3, True)] if tier == 'quick' else [(2, 4, False), (3, 2, False), (3, 3, True), (4, 2, False)]
+    configs = [(2, 3, False), (3, 2, False), (3, 3, True)] if tier == 'quick' else [(2, 4, False), (2, 5, False), (3, 2, False), (3, 3, True), (4, 2, True), (3, 3, 'full')]
     if os.environ.get('C26_CONFIGS'):
-        configs = [(int(c.split('x')[0]), int(c.split('x')[1].rstrip('r')), c.endswith('r')) for c in os.environ['C26_CONFIGS'].split(',')]
+        configs = [(int(c.split('x')[0]), int(c.split('x')[1].rstrip('rf')), 'full' if c.endswith('f') else c.endswith('r')) for c in os.environ['C26_CONFIGS'].split(',')]
     for n, rounds, restricted in configs:
+        # 'full': first round registers only, but every round (also the last) takes decisions
+        observe = restricted is True
+        restricted = bool(restricted)
         vals = [v for v in range(1 << (n + 1)) if not (v >> 1) & 1 and ((v & 1 and v >> 1) or not restricted)]
         firsts = [[v] for v in vals] if len(vals) <= 16 else [vals[i::16] for i in range(16)]
-        job = Job(ENTRY, make_build(n, rounds, restricted), judge_zero, max_steps=4_000_000)
+        job = Job(ENTRY, make_build(n, rounds, restricted, observe), judge_zero, max_steps=4_000_000)
         tot = explore(chk, mod, job, firsts, nproc=16)
         for v in tot['violations'][:10]:
             dec = v['inputs']['decisions']
-            args = native_args(dec, n, rounds | (0x100 if restricted else 0))
+            args = native_args(dec, n, rounds | (0x100 if observe else 0))
             r = llcheck.native_call(so, ENTRY, args, ret='c_uint32')
             what = 'TopoSort with %d items, %d rounds, decisions %s: %s; native call %r' % (n, rounds, dec, v['what'], r)
             if r[0] == 'ret' and r[1] == 0:
